@@ -7,7 +7,13 @@ set -u
 V=$(cd "$(dirname "$0")/.." && pwd)
 P=$1; I=$2; shift 2
 SRC=/tmp/seed/$P/out
-[ -f "$SRC/change$I.diff" ] || { echo "no $SRC/change$I.diff"; exit 2; }
+if [ ! -f "$SRC/change$I.diff" ]; then
+  # re-run from the filed copy
+  SRC=$(mktemp -d /tmp/vlark-seedsrc-XXXXXX)
+  cp "$V/seeded/$P-$I/patch.diff" "$SRC/change$I.diff" || { echo "no seed $P-$I"; exit 2; }
+  cp "$V/seeded/$P-$I/demo.py" "$SRC/demo$I.py"
+  [ -f "$V/seeded/$P-$I/notes.md" ] && cp "$V/seeded/$P-$I/notes.md" "$SRC/notes$I.md"
+fi
 D=$(mktemp -d /tmp/vlark-seed-XXXXXX)
 git -C /repo worktree add -q --detach "$D/repo" HEAD || exit 2
 cleanup() { git -C /repo worktree remove --force "$D/repo" 2>/dev/null; rm -rf "$D"; git -C /repo worktree prune; }
